@@ -23,6 +23,7 @@ package p9p
 //@ pure plain(s string) bool = okName(s) && s != ".."
 
 //@ func NormalizePath
+//@ timeout 60
 //@ property C16 C20
 //@ ensures args_untouched: forall(j, 0, len(args), args[j] == old(args[j]))
 //@ ensures err: result1 == -1 <==> exists(j, 0, len(args), sep(args[j]))
